@@ -323,10 +323,38 @@ def render(v) -> str:
         toks = [f"O {type(v).__qualname__} {len(keys)}"]
         for k in keys:
             toks.append(k[1:] if k.startswith("_") else k)
-            toks.append(render(getattr(v, k, _MISSING)))
+            x = getattr(v, k, _MISSING)
+            bad = _wrong_enum_type(x, type(v).__annotations__[k])
+            toks.append(bad if bad else render(x))
         toks.append(str(int(getattr(v, "_byte_size", 0))))
         return " ".join(toks)
     return f"? {type(v).__name__}"
+
+
+def _wrong_enum_type(x, annotation):
+    """an enum member (or a tuple of them) stored in a field whose declared type names another class: rendered as
+    `? <actual>-for-<declared>` so that it differs from every expected rendering (plain ints are what callers may pass)"""
+    import enum
+    import re
+    import typing
+
+    def names(a):
+        if isinstance(a, str):
+            return set(re.findall(r"[A-Za-z_][A-Za-z_0-9]*", a))
+        if isinstance(a, type):
+            return {a.__name__}
+        out = set()
+        for b in typing.get_args(a):
+            out |= names(b)
+        return out or set(re.findall(r"[A-Za-z_][A-Za-z_0-9]*", str(a)))
+    items = x if isinstance(x, (tuple, list)) else (x,)
+    declared = None
+    for y in items:
+        if isinstance(y, enum.Enum):
+            declared = names(annotation) if declared is None else declared
+            if type(y).__name__ not in declared:
+                return f"? {type(y).__name__}-for-{'|'.join(sorted(declared))}"
+    return None
 
 
 def render_nosize(v) -> str:
